@@ -92,6 +92,8 @@ long sim_alloc_count(void);
 void sim_poison_stack_below(void); /* overwrite the dead part of the current stack with poison */
 
 /* ---- hooks harnesses may install ---- */
+extern void (*sim_hook_spin)(void);            /* called at every cpu_relax() of the calling thread */
+extern void (*sim_hook_context_switch)(void);  /* called at every fiber_context_swap (after the ghost) */
 extern void (*sim_hook_hp_scan_enter)(void* hptr);
 extern void (*sim_hook_hp_scan_exit)(void* hptr);
 
